@@ -60,7 +60,12 @@ def new_loop() -> WatchLoop:
     return loop
 
 
+fired = 0  # how many times a budget timer has fired in this process (an exception raised inside a __del__ is lost)
+
+
 def _on_alarm(signum, frame):
+    global fired
+    fired += 1
     raise WallBudgetExceeded()
 
 
